@@ -499,7 +499,7 @@ impl<B: MysqlShim<RW>, RW: Read + Write> MysqlIntermediary<B, RW> {
                         )
                     })?;
                     {
-                        let params = params::ParamParser::new(params, state);
+                        let mut params = params::ParamParser::new(params, state);
                         params.validate()?;
                         let w = QueryResultWriter::new(&mut self.rw, true);
                         self.shim.on_execute(stmt, params, w)?;
